@@ -23,14 +23,15 @@ func findOutputDeps(instrs []*instruction) {
 // findOutputDepsReg finds register-based output dependencies in the code.
 func findOutputDepsReg(ins *instruction, regs keyInsMap) {
 	for r := range ins.outRegs {
-		dep, ok := regs[r]
-		if !ok {
-			regs[r] = ins
-			continue
+		// We are certain that dep != ins.
+		if dep, ok := regs[r]; ok {
+			addDep(ins, dep)
 		}
 
-		// We are certain that i != ins.
-		addDep(ins, dep)
+		// Being dependent is a transitive relation, so it's sufficient
+		// to depend on the closest following write. That is why ins has
+		// to replace the write it depends on.
+		regs[r] = ins
 	}
 }
 
